@@ -2434,17 +2434,26 @@ impl<'input, T: Input> Scanner<'input, T> {
     fn fetch_value(&mut self) -> ScanResult {
         let sk = self.simple_keys.last().unwrap().clone();
         let start_mark = self.mark;
-        let is_implicit_flow_mapping = matches!(
+        // A `:` starts an implicit mapping only if none is open in this flow sequence yet.
+        let starts_implicit_flow_mapping = matches!(
             self.implicit_flow_mapping_states.last(),
-            Some(ImplicitMappingState::Possible | ImplicitMappingState::Inside)
+            Some(ImplicitMappingState::Possible)
         );
-        if is_implicit_flow_mapping {
+        let is_implicit_flow_mapping = starts_implicit_flow_mapping
+            || matches!(
+                self.implicit_flow_mapping_states.last(),
+                Some(ImplicitMappingState::Inside)
+            );
+        if starts_implicit_flow_mapping {
             *self.implicit_flow_mapping_states.last_mut().unwrap() = ImplicitMappingState::Inside;
         }
 
         // Skip over ':'.
         self.skip_non_blank();
-        if self.input.look_ch() == '\t'
+        // In block context a tab may not separate the `:` from a nested block collection. Inside a
+        // flow collection there is no indentation and tabs are ordinary separation space.
+        if self.flow_level == 0
+            && self.input.look_ch() == '\t'
             && !self.skip_ws_to_eol(SkipTabs::Yes)?.has_valid_yaml_ws()
             && (self.input.peek() == '-' || self.input.next_is_alpha())
         {
